@@ -38,7 +38,7 @@ func TestWatchedRuleSetFileIsFollowed(t *testing.T) {
 		singleFile := rapid.Bool().Draw(t, "srcIsTheFile")
 		// the layout of a mounted Kubernetes ConfigMap: the file is a symbolic link to ..data/src0.yaml, ..data one to a
 		// directory with the current content; an update brings a new directory and replaces the link ..data atomically
-		configMap := singleFile && rapid.IntRange(0, 2).Draw(t, "configMapLayout") == 1
+		configMap := rapid.IntRange(0, 2).Draw(t, "configMapLayout") == 1
 		generation := 0
 
 		publish := func(ver string, atomically bool) {
